@@ -19,3 +19,168 @@ def spot_equity(free_quote, resting_buys, holdings):
     for hd in holdings:
         r = r + abs(hd[0] * hd[1])
     return r
+
+
+# ------------------------------------------------------------------------------------------------ trade-list metrics
+# pnls / fees / holds: lists of numbers, types: list of 'long' | 'short' (one entry per closed trade, in closing order)
+
+def count_pos(xs):
+    n = 0
+    for x in xs:
+        n = n + (1 if x > 0 else 0)
+    return n
+
+
+def count_neg(xs):
+    n = 0
+    for x in xs:
+        n = n + (1 if x < 0 else 0)
+    return n
+
+
+def count_zero(xs):
+    n = 0
+    for x in xs:
+        n = n + (1 if x == 0 else 0)
+    return n
+
+
+def count_eq(xs, v):
+    n = 0
+    for x in xs:
+        n = n + (1 if x == v else 0)
+    return n
+
+
+def total(xs):
+    r = 0
+    for x in xs:
+        r = r + x
+    return r
+
+
+def sum_pos(xs):
+    r = 0
+    for x in xs:
+        r = r + (x if x > 0 else 0)
+    return r
+
+
+def sum_neg(xs):
+    r = 0
+    for x in xs:
+        r = r + (x if x < 0 else 0)
+    return r
+
+
+def largest_win(xs):
+    r = 0
+    for x in xs:
+        r = x if x > r else r
+    return r
+
+
+def largest_loss(xs):
+    r = 0
+    for x in xs:
+        r = x if x < r else r
+    return r
+
+
+def win_rate(xs):
+    w = count_pos(xs)
+    l = count_neg(xs)
+    return w / (w + l) if w > 0 else 0
+
+
+def streaks(xs):
+    """(longest winning run, longest losing run, signed run at the end): a run of consecutive PnL > 0 counts up, a run of
+    consecutive PnL < 0 counts down, a zero-PnL trade ends either run"""
+    cur = 0
+    best = 0
+    worst = 0
+    for x in xs:
+        up = (cur + 1 if cur > 0 else 1)
+        down = (cur - 1 if cur < 0 else -1)
+        cur = up if x > 0 else (down if x < 0 else 0)
+        best = cur if cur > best else best
+        worst = cur if cur < worst else worst
+    return best, -worst, cur
+
+
+def expectancy(xs):
+    w = count_pos(xs)
+    l = count_neg(xs)
+    wr = win_rate(xs)
+    aw = sum_pos(xs) / w if w > 0 else 0
+    al = abs(sum_neg(xs) / l) if l > 0 else 0
+    return aw * wr - al * (1 - wr)
+
+
+# ------------------------------------------------------------------------------------------------ equity-series ratios
+# balances: daily equity samples b[0..d-1] (b[0] = starting balance), all > 0, d >= 2; returns r[t] = b[t]/b[t-1] - 1
+
+def returns_of(balances):
+    return [balances[t] / balances[t - 1] - 1 for t in range(1, len(balances))]
+
+
+def mean_of(xs):
+    return total(xs) / len(xs)
+
+
+def sample_std(xs):
+    m = mean_of(xs)
+    s = 0
+    for x in xs:
+        s = s + (x - m) * (x - m)
+    return pow(s / (len(xs) - 1), 0.5)
+
+
+def max_drawdown_of(balances):
+    """most negative relative distance of the equity from its running peak; the starting balance is the first peak"""
+    peak = balances[0]
+    worst = 0
+    for b in balances:
+        peak = b if b > peak else peak
+        dd = b / peak - 1
+        worst = dd if dd < worst else worst
+    return worst
+
+
+def growth_of(balances):
+    g = 1
+    for r in returns_of(balances):
+        g = g * (1 + r)
+    return g
+
+
+def cagr_of(balances):
+    """compound annual growth over the d-1 days the series spans, 365-day year"""
+    days = len(balances) - 1
+    return pow(growth_of(balances), 365 / days) - 1
+
+
+def sharpe_of(balances):
+    r = returns_of(balances)
+    return mean_of(r) / sample_std(r) * pow(365, 0.5)
+
+
+def downside_of(balances):
+    r = returns_of(balances)
+    s = 0
+    for x in r:
+        s = s + (x * x if x < 0 else 0)
+    return pow(s / len(r), 0.5)
+
+
+def sortino_of(balances):
+    return mean_of(returns_of(balances)) / downside_of(balances) * pow(365, 0.5)
+
+
+def omega_of(balances):
+    r = returns_of(balances)
+    return sum_pos(r) / -sum_neg(r)
+
+
+def calmar_of(balances):
+    return cagr_of(balances) / abs(max_drawdown_of(balances))
